@@ -432,6 +432,10 @@ def r9(ctx):
     from . import c02
     before = len(ctx.insts)
     c02.r4(ctx)
+    # ... and the signed head of an append enters the in-memory header (from where the next flush
+    # writes it) only after the entry that carries its nodes is logged: a failed entry write must
+    # not leave the header describing a tree head whose nodes exist nowhere (C02.R1)
+    c02.order_rule(ctx, P, "C05.R9", APPEND_BATCH, BS_APPEND, False)
     for i in ctx.insts[before:]:
         i.prop, i.rule = P, "C05.R9"
         i.key = i.key.replace("C02|C02.R4", "C05|C05.R9")
